@@ -96,7 +96,8 @@ class VirtualLoop(asyncio.BaseEventLoop):
         while sched and sched[0]._cancelled:
             h = heapq.heappop(sched)
             h._scheduled = False
-        if not self._ready and sched:
+        if not self._ready and sched and not getattr(self, "no_time_advance", False):
+            # (no_time_advance: the caller issues its next call at once - timers stay pending across the idle gap)
             if sched[0]._when > self._vtime:
                 self._vtime = sched[0]._when
         end = self._vtime + self._clock_resolution
